@@ -10,6 +10,7 @@ ops:
       dirs    : csv of hex board-directory names or `-`         pool    : csv of hex names (≤ 13 bytes) or `-`
       slot    : <c|j>:<name hex>:<title hex>:<bm hex>:<attr>:<chess>:<level>:<gid>     (j: LCG filler in every
                 other byte, c: zeros)
+  newbm <csv of hex ids | ->                      ptttype.NewBM on these UserID_t values: the 39 bytes of the BM_t
   create <user hex> <ulevel> <uid> <cls> <name hex> <class hex> <title hex> <bms hex|nil> <attr> <level> <chess> <0|1>
 answers:
   reset  : ok <observation>
@@ -493,6 +494,10 @@ def stepC12 (st : Option DS) (ws : List String) : Option DS × String :=
   | "reset" :: rest =>
       match doReset rest with
       | some (ds, out) => (some ds, if checkSorted ds.s then out else "sortspec-violated " ++ out)
+      | none => (st, "bad-op")
+  | ["newbm", ids] =>
+      match parseCsvBytes ids 13 with
+      | some ids => (st, toHex (newBM (ids.map (copyInto 13))))
       | none => (st, "bad-op")
   | "create" :: rest =>
       match st, parseReq rest with
